@@ -78,8 +78,10 @@ def bipartite_vertex_cover(bigraph, algo="Hopcroft-Karp"):
     """
     if algo == "Hopcroft-Karp":
         coord = [(irow,icol) for irow,cols in enumerate(bigraph) for icol in cols]
-        coord = np.array(coord)
-        graph = csr_matrix((np.ones(coord.shape[0]),(coord[:,0],coord[:,1])))
+        # explicit shape: a graph without any edge and isolated vertices with the largest indices are legal
+        coord = np.array(coord, dtype=int).reshape(-1, 2)
+        shape = (len(bigraph), int(coord[:,1].max()) + 1 if len(coord) else 0)
+        graph = csr_matrix((np.ones(coord.shape[0]),(coord[:,0],coord[:,1])), shape=shape)
         matchV = maximum_bipartite_matching(graph, perm_type='row')
         matchV = [None if x==-1 else x for x in matchV]
         nU, nV = graph.shape
